@@ -212,6 +212,8 @@ def mutate(rng, r0, depth=1):
                 if not r[f]:
                     r[f] = [0.0] * {"vertProperties": 3, "runTransform": 12 * max(1, len(r["runOriginalID"])),
                                     "halfedgeTangent": 4 * len(r["triVerts"])}[f]
+                if not r[f]:
+                    r[f] = [0.0]
                 r[f][rng.randrange(len(r[f]))] = val
             tags.append("nonfinite:%s:%s" % (f, val))
         elif kind == 8:    # numProp
